@@ -1,6 +1,7 @@
 import Uniseg.Impl.Loops
 import Uniseg.Explore
 import Uniseg.CertGen
+import Uniseg.Spec.Width
 /-! Line-protocol driver: one operation per input line, one canonical output line each.
 Core-only (no Mathlib) so that it links as a `lean_exe`. -/
 open Uniseg Uniseg.Gen
@@ -166,6 +167,31 @@ def handle (toks : List String) : IO Unit := do
       else if alg == "s" then String.join ((Spec.specS rs).map Auto.b2s)
       else String.join ((Spec.specL rs).map Auto.showLV)
     IO.println (if out.isEmpty then "-" else out)
+  | ["dumprw", amb, prop] =>
+    let a := amb.toNat!
+    let p := prop.toNat!
+    let mut lo := 0
+    let mut cur := runeWidth a 0 p
+    for r in [1:0x110000] do
+      let v := runeWidth a r p
+      if v != cur then
+        IO.println s!"{lo} {r-1} {cur}"
+        lo := r
+        cur := v
+    IO.println s!"{lo} {0x10FFFF} {cur}"
+  | ["specwidth", amb, h] =>
+    let vals := runeVals (Utf8.runesOf (parseHex h))
+    let bs := Spec.specG vals
+    -- groups of code points between spec boundaries
+    let rec groups : List Nat → List Bool → List Nat → List (List Nat) → List (List Nat)
+      | [], _, cur, acc => (if cur.isEmpty then acc else cur.reverse :: acc).reverse
+      | v :: vs, [], cur, acc => groups vs [] (v :: cur) acc
+      | v :: vs, b :: bs, cur, acc =>
+        if cur.isEmpty then groups vs (b :: bs) [v] acc
+        else if b then groups vs bs [v] (cur.reverse :: acc) else groups vs bs (v :: cur) acc
+    let gs := groups vals bs [] []
+    let out := gs.map fun g => s!"{g.length}:{Spec.clusterWidth amb.toNat! g}"
+    IO.println (if out.isEmpty then "-" else " ".intercalate out)
   | ["sync"] => do IO.println "sync"; (← IO.getStdout).flush
   | _ => IO.println "bad-op"
 
